@@ -18,6 +18,8 @@ REPO = os.environ.get("VERIF_REPO", "/repo")
 EX = os.path.join(REPO, "examples", "turtlemd", "double_well")
 BASE_TOML = os.path.join(REPO, "test", "simulations", "data", "wf.toml")
 
+LAST_EVENTS = []      # the recorded events of the last chain() of this process (Init/Pick/Complete/Finish/Restart)
+
 ORDERP = '''from infretis.classes.orderparameter import OrderParameter
 
 
@@ -58,12 +60,20 @@ def chain(root, seed, steps_chain, moves):
     build(root, seed, steps_chain[0], moves)
     evp = os.path.join(root, "ev.jsonl")
     inp = "infretis.toml"
+    events = []
     for i, st in enumerate(steps_chain):
+        if os.path.exists(evp):
+            os.remove(evp)
         status, killed, _wall = realrun.run_lifetime(root, inp, evp, steps=st if i else None, timeout=300)
         if status != 0 or killed:
             err = [e for e in realrun.read_events(evp) if e["ev"] in ("_error", "_refused")][-1:]
             return None, f"leg {i} ({st} steps): exit status {status}{' (timed out)' if killed else ''} {err}"
+        leg = [e for e in realrun.read_events(evp) if not e["ev"].startswith("_")]
+        if leg and leg[0]["ev"] == "Restart":
+            leg[0]["clean"] = True
+        events += leg
         inp = "restart.toml"
+    LAST_EVENTS[:] = events
     with open(os.path.join(root, "infretis_data.txt"), "rb") as fh:
         data = fh.read()
     with open(os.path.join(root, "restart.toml"), "rb") as fh:
